@@ -25,6 +25,7 @@ type inPkt struct {
 }
 
 type c02Case struct {
+	Chunked  bool      `json:"chunked_post"` // polling data requests without Content-Length
 	Form     string    `json:"form"` // v4 | v3s | v3b | v3b64 | jsonp4 | jsonp3 | ws4 | ws3 | ws4b64 | ws3b64 | wt
 	Payloads [][]inPkt `json:"payloads"`
 	Negative string    `json:"negative"` // "" | candidate-message | after-close
@@ -122,6 +123,7 @@ func genC02(rng *rand.Rand, form string, clean bool) c02Case {
 	if clean {
 		sanitizeC02(&c, rng)
 	}
+	c.Chunked = polling && rng.IntN(4) == 0
 	return c
 }
 
@@ -237,6 +239,7 @@ func runC02(c c02Case, r *rep.Report) (key, msg string, stats map[string]int64) 
 			defer w.Finish()
 			cfg := c02Cfg(c.Form)
 			cfg.NoAutoPong = true
+			cfg.ChunkedPost = c.Chunked
 			cl, err := w.Connect(cfg)
 			rig.Wait()
 			sock := w.Socket(0)
@@ -383,6 +386,9 @@ func classifyC02(c c02Case, key string) string {
 func c02Sig(c c02Case) string {
 	var sb strings.Builder
 	sb.WriteString(c.Form + "/" + c.Negative + "/")
+	if c.Chunked {
+		sb.WriteString("chunked/")
+	}
 	for _, ps := range c.Payloads {
 		for _, k := range ps {
 			t := k.Type[:1]
